@@ -1,7 +1,8 @@
 (** * LivenessNexts: "the iterator is advanced only on demand, once per element delivered plus once to
       discover exhaustion" - for every reachable state of every pipeline (C06, C15 composed). *)
 
-From CB Require Import ProofLib Spec Chain Programs Flow FlowLists Liveness.
+From CB Require Import ProofLib Spec Chain Programs Flow FlowLists.
+From CB Require Flow_ends.
 From CB Require Inv_from_iter.
 
 Set Implicit Arguments.
